@@ -52,6 +52,7 @@ def main(c):
         "data races are observed by Go's race detector on the executions the driver produces (trusted base); the design-level interleavings are explored by TLC on specs/conc/Shutdown.tla",
         "an application that neither reads events nor lets replies be handled while it waits for a query has deadlocked itself: not generated",
         "goroutines 'started by the library' are those whose creator frame is in a package of the library (vaxis, vaxis/ansi, vaxis/widgets/...: the spinner's ticker goroutine is one of them)",
+        "a goroutine 'outlives' Suspend when it is still alive one second after Suspend returned (before any Resume); not observed in the spinner and query scenarios",
         "a query call has to return while Vaxis runs when the terminal answered it and the application kept running (bound 4 s), and in every case once Close has returned (bound 1.5 s); what the call returns is not judged (C03 judges answers)",
     ]
     if not c.replay:
@@ -107,5 +108,8 @@ def main(c):
              "goroutine); plus query scenarios: 1-4 goroutines x calls of QueryColor(distinct indexes)/QueryForeground/QueryBackground/"
              "CursorPosition/ClipboardPop x replies on time / 1-7 ms late / never / while the input is shut down / after Resume x 0-3 "
              "Suspend+Resume cycles meanwhile x end; plus widgets/spinner scenarios (run, stop queued, stopped, Start/Stop/Toggle from "
-             "3 goroutines, across Suspend+Resume) then Close; executed with the race detector (halt on first report) in child "
+             "3 goroutines, across Suspend+Resume) then Close; plus Suspend beside a full event queue: queue 1/2/4 x input the "
+             "input goroutine has to post (paste start, keys, focus, mouse) x Suspend+Close / Suspend+Resume+more input+late or no "
+             "reader+Close, with the library's goroutines listed one second after Suspend returned; plus a sixel image re-encoded "
+             "(library goroutine) beside frames that take in-band size reports over; executed with the race detector (halt on first report) in child "
              "processes; distinct = distinct descriptor")
